@@ -693,3 +693,52 @@ func namespaceScopingTable(r *Report, p *Program, rule string) {
 	}
 	r.Check(rule, FK(f), p.Pos(f.Pos()), ok, "scoped ⇔ namespaced ∧ namespace given", why)
 }
+
+// jsonDecodingPreservesInts (C05/C01): generic JSON (objects, last-applied configurations, patches) is decoded with
+// apimachinery's util/json (or sigs.k8s.io/json), which keep integers as int64 — the representation the API
+// machinery's own decoding produces for observed objects. encoding/json would turn them into float64: DeepEqual of
+// observed and merged values never holds, and list-map keys rendered with %v stop lining up for large integers.
+func jsonDecodingPreservesInts(r *Report, p *Program, rule string) {
+	r.Rule(rule, "no encoding/json.Unmarshal / Decoder.Decode into untyped data (interface{}, map[string]interface{}, Unstructured) anywhere in the module: such data is decoded with k8s.io/apimachinery/pkg/util/json or sigs.k8s.io/json")
+	n := 0
+	ord := map[string]int{}
+	for _, f := range p.Scanned {
+		k := FK(f)
+		if !strings.HasPrefix(k, engine.ModPrefix) || strings.Contains(k, "/pkg/client/generated") {
+			continue
+		}
+		for _, b := range f.Blocks {
+			for _, in := range b.Instrs {
+				ci, isC := in.(ssa.CallInstruction)
+				if !isC {
+					continue
+				}
+				ck := engine.CallKey(ci.Common())
+				std := ck == "encoding/json.Unmarshal" || ck == "encoding/json.Decoder.Decode"
+				k8s := strings.HasSuffix(ck, "apimachinery/pkg/util/json.Unmarshal") || strings.HasPrefix(ck, "sigs.k8s.io/json.Unmarshal")
+				if !std && !k8s {
+					continue
+				}
+				target := ci.Common().Args[len(ci.Common().Args)-1]
+				untyped := false
+				t := target.Type()
+				if mi, isMI := target.(*ssa.MakeInterface); isMI {
+					t = mi.X.Type()
+				}
+				ts := t.String()
+				if strings.Contains(ts, "interface{}") || strings.Contains(ts, "any") || strings.Contains(ts, "unstructured.Unstructured") || strings.HasSuffix(ts, "interface {}") {
+					untyped = true
+				}
+				if !untyped && std {
+					continue // a typed struct target: field types decide
+				}
+				key := Short(k) + "→" + Short(ck)
+				c := sf("%s#%d", key, ord[key])
+				ord[key]++
+				n++
+				r.Check(rule, c, p.InstrPos(in), !std, "int64-preserving decoder", "untyped JSON is decoded with encoding/json: integers become float64, unlike in the objects the API machinery delivers — comparisons and list-map keys of such values stop matching")
+			}
+		}
+	}
+	r.Floor(rule, 3)
+}
